@@ -258,10 +258,39 @@ func checkC20(c *Ctx) {
 	// ---------------- R4 + R5: outcome hooks
 	outcomeSets := [][2]string{{"RqSuccessTotal", "RqFailureTotal"}, {"Success", "Error"}}
 	nhooks := 0
-	for _, fn := range fns {
-		if fn.Parent() == nil {
-			continue
+	// hookTarget resolves a function value passed as a hook: closure, function, or bound method wrapper
+	hookTarget := func(v ssa.Value) *ssa.Function {
+		g := funcValue(v)
+		if g == nil {
+			return nil
 		}
+		if g.Synthetic != "" && g.Blocks != nil {
+			var t *ssa.Function
+			eachInstr(g, func(_ *ssa.BasicBlock, _ int, x ssa.Instruction) {
+				if c2 := callOf(x); c2 != nil && calleeFn(c2) != nil {
+					t = calleeFn(c2)
+				}
+			})
+			return t
+		}
+		return g
+	}
+	covers := func(v ssa.Value, fn *ssa.Function) bool {
+		h := hookTarget(v)
+		if h == nil {
+			return false
+		}
+		if h == fn {
+			return true
+		}
+		for _, g := range staticCalleesDeep(h, 2) {
+			if g == fn {
+				return true
+			}
+		}
+		return false
+	}
+	for _, fn := range fns {
 		for _, os := range outcomeSets {
 			var incs []ssa.Instruction
 			eachInstr(fn, func(_ *ssa.BasicBlock, _ int, in ssa.Instruction) {
@@ -320,8 +349,21 @@ func checkC20(c *Ctx) {
 				}
 			})
 			c.Check(okType, "R4", site+" decided by reply type", fn.Pos(), "branch on reply.Type == Error", "the outcome is not decided by the reply being an error")
-			// R5: in the parent, total++ and the RegisterHook of this closure are adjacent
-			par := fn.Parent()
+			// R5: in the function that registers this hook, total++ and the registration are adjacent
+			var par *ssa.Function
+			for _, cand := range fns {
+				eachInstr(cand, func(_ *ssa.BasicBlock, _ int, in ssa.Instruction) {
+					if cc := callOf(in); cc != nil && len(cc.Args) == 2 {
+						if covers(cc.Args[1], fn) {
+							par = cand
+						}
+					}
+				})
+			}
+			if par == nil {
+				c.Fail("R5", fmt.Sprintf("%s is registered as a hook", fnKey(fn)), fn.Pos(), "a function that records request outcomes is never registered as a completion hook")
+				continue
+			}
 			totalName := "RqTotal"
 			if os[0] == "Success" {
 				totalName = "Total"
@@ -332,7 +374,7 @@ func checkC20(c *Ctx) {
 					tot = in
 				}
 				if cc := callOf(in); cc != nil && len(cc.Args) == 2 {
-					if g := funcValue(cc.Args[1]); g == fn {
+					if covers(cc.Args[1], fn) {
 						reg = in
 					}
 				}
